@@ -335,6 +335,7 @@ func cmdCheck(args []string) int {
 	exit := 0
 	var problems []string
 	nViol := 0
+	seenKnown := map[string]bool{}
 	for _, r := range tc.Runs {
 		rr, err := execRun(P, r, *workers, 10*time.Minute)
 		if err != nil {
@@ -372,7 +373,6 @@ func cmdCheck(args []string) int {
 			}
 			continue
 		}
-		seenKnown := map[string]bool{}
 		reportedLabels := map[string]bool{}
 		reported := 0
 		for _, v := range ex.violations {
